@@ -3764,8 +3764,15 @@ class FuncSorted(ValueFunc):
                     .addArg(cmp.getArgNames()[0], v)
                     .addArg(cmp.getArgNames()[1], v2)
                 )
-                comparison = cmp.execute(cmpargs, env, pos).value
-                if comparison < 0:
+                comparison = cmp.execute(cmpargs, env, pos)
+                if not comparison.isNumerical():
+                    raise CklRuntimeError(
+                        ValueString("ERROR"),
+                        "cmp function must return a number but returned "
+                        + comparison.type(),
+                        pos,
+                    )
+                if comparison.value < 0:
                     temp = result[j + 1]
                     result[j + 1] = result[j]
                     result[j] = temp
